@@ -31,6 +31,11 @@ def disagree(ctx: Ctx, case: Case, what: str, detail: dict, corr: str, prop: str
     return True
 
 
+def _effort(ctx: Ctx, n: int) -> int:
+    """samples per class: four times as many in the pass that searches for a failing input after the tie broke"""
+    return 4 * n if getattr(ctx, "oracle_only", False) else n
+
+
 def fails(ctx: Ctx, case: Case, what: str, detail: dict, key=None):
     ctx.violation("property-fails", what, dict(case.replay_doc(), **detail), key=key)
 
@@ -99,7 +104,7 @@ def run_c02(ctx: Ctx):
                 per_class = []
                 for cname in case.info.classes():
                     ci = case.info.cls(cname)
-                    for _ in range(6 if (ctx.tier == "thorough") else 4):
+                    for _ in range(_effort(ctx, 6 if (ctx.tier == "thorough") else 4)):
                         kw = ci.random_kwargs(rng, valid=True, lossless=False)
                         obj, real_new, model_new = construct_both(ctx, case, cname, kw)
                         if real_new.split()[0] != model_new.split()[0] or (obj is None and real_new != model_new):
@@ -196,6 +201,61 @@ def declared_packet(files, cname):
 # ============================================================================================
 # generic replay for generator properties
 # ============================================================================================
+
+def replay_by_rerun(run_fn):
+    """replay = the property's own sweep, run on the recorded specification only (same flags, rng seeded from the record);
+    exit 1 iff a violation or a model/implementation disagreement shows again"""
+    def replay(ctx: Ctx, doc: dict) -> int:
+        import random
+        files = gencheck.files_from_doc(doc)
+        flags = doc.get("flags") if isinstance(doc.get("flags"), dict) else {}
+        ctx.replaying = True
+        ctx.replay_hits = []
+        ctx.tier = doc.get("tier", ctx.tier)
+        orig = gencheck.spec_stream
+
+        def only(_ctx, _n, **_kw):
+            yield Case(files, doc.get("tag", "replay"), dict(flags))
+        gencheck.spec_stream = only
+        try:
+            for attempt in range(4):   # the sweep draws objects at random: a few independent draws
+                ctx.rng = random.Random(int(doc.get("seed", 0) or 0) * 7919 + attempt)
+                ctx.deferred = []
+                run_fn(ctx)
+                if ctx.replay_hits or ctx.deferred:
+                    break
+        finally:
+            gencheck.spec_stream = orig
+        for d in ctx.deferred:
+            print(f"  reproduced: {d[0]}: {d[1][:400]}")
+        if not (ctx.replay_hits or ctx.deferred):
+            print("  not reproduced on this tree: the recorded specification passes the property's sweep")
+        return 1 if (ctx.replay_hits or ctx.deferred) else 0
+    return replay
+
+
+def replay_c17(ctx: Ctx, doc: dict) -> int:
+    """the recorded (edited) specification: acceptance by the real generator, by the model, verdict of the declarative rules"""
+    files = gencheck.files_from_doc(doc)
+    run = genlib.GenRun(files)
+    try:
+        model = ctx.driver.ask1("gen load " + run.forest)
+        bad = _wf_rejections(ctx.driver.ask1("gen wf"))
+        real_rejects = run.error is not None
+        print("real generator:", f"rejects: {run.error!r}" if real_rejects else "accepts")
+        print("model:", model[:160])
+        print("declarative rules reject:", bad or "nothing", "| catalogue rule:", doc.get("rule"), doc.get("placement"), doc.get("edit"))
+        ill = bool(bad) or bool(doc.get("rule"))
+        if ill and not real_rejects:
+            print("  reproduced: an ill-formed specification is accepted by the generator")
+            return 1
+        if real_rejects != model.startswith("err"):
+            print("  reproduced: real generator and model disagree on acceptance")
+            return 1
+        return 0
+    finally:
+        run.cleanup()
+
 
 def replay_generic(ctx: Ctx, doc: dict) -> int:
     files = gencheck.files_from_doc(doc)
@@ -392,7 +452,7 @@ def run_c01(ctx: Ctx):
             n_spec += 1
             for cname in case.info.classes():
                 cls = case.run.get_class(cname)
-                for obj, data in valid_serialisations(ctx, case, cname, 6 if (ctx.tier == "thorough") else 4, lossless=True):
+                for obj, data in valid_serialisations(ctx, case, cname, _effort(ctx, 6 if (ctx.tier == "thorough") else 4), lossless=True):
                     n_obj += 1
                     ro = genlib.render(obj)
                     reader = case.run.EoReader(data)
@@ -637,7 +697,7 @@ def run_c16(ctx: Ctx):
             for cname in case.info.classes():
                 cls = case.run.get_class(cname)
                 ci = case.info.cls(cname)
-                for _ in range(10 if (ctx.tier == "thorough") else 6):
+                for _ in range(_effort(ctx, 10 if (ctx.tier == "thorough") else 6)):
                     try:
                         kw, what = ci.random_kwargs(rng, valid=False)
                     except Exception:  # noqa: BLE001
@@ -746,7 +806,7 @@ def run_c19(ctx: Ctx):
             for cname in case.info.classes():
                 cls = case.run.get_class(cname)
                 ci = case.info.cls(cname)
-                for _ in range(3):
+                for _ in range(_effort(ctx, 3)):
                     kw = ci.random_kwargs(rng, valid=True)
                     # hand the constructor *lists* for arrays and mutate them afterwards
                     kw2 = {k: (list(v) if isinstance(v, tuple) else v) for k, v in kw.items()}
